@@ -59,6 +59,18 @@ def edge_condition(fn, src, dst):
 
 SWAP_PRED = {'slt': 'sgt', 'sgt': 'slt', 'sle': 'sge', 'sge': 'sle', 'ult': 'ugt', 'ugt': 'ult', 'ule': 'uge', 'uge': 'ule', 'eq': 'eq', 'ne': 'ne'}
 
+_BSWAP_OF_CONST = re.compile(r'^@(__libec_bswap_(?:16|32|64)|llvm\.bswap\.i(?:16|32|64)|__bswap_(?:16|32|64))\((-?\d+)\)$')
+
+def involution_form(pred, a, b):
+    """`x == bswap(K)` says the same as `bswap(x) == K` (byte reversal is its own inverse): equalities against the reversal of a
+    constant are put into the second form, the one written when the value is reversed before it is compared"""
+    if pred in ('eq', 'ne'):
+        for x, y in ((a, b), (b, a)):
+            m = _BSWAP_OF_CONST.match(y) if isinstance(y, str) else None
+            if m and isinstance(x, str) and not INT.match(x):
+                return pred, f'@{m.group(1)}({x})', m.group(2)
+    return pred, a, b
+
 def implied_atoms(fn, cond, truth, depth=0):
     """comparisons (icmp instruction, truth) that necessarily hold when the i1 value `cond` has value `truth`:
     !x, a && b (true), a || b (false) and their select forms are decomposed"""
@@ -121,8 +133,14 @@ class Facts:
             # constants (and null) on the right-hand side, whichever way the comparison is written
             if (INT.match(a) or a == 'null') and not (INT.match(b) or b == 'null'):
                 a, b, pred = b, a, SWAP_PRED[pred]
+            pred, a, b = involution_form(pred, a, b)
             self.facts.append((pred, a, b))
             self.raw.append((d, truth))
+            # sign test of a bitwise or: (x | y) >= 0 means neither has its sign bit set
+            od = fn.defs.get(strip_int_casts(fn, d.ops[0])) if not INT.match(d.ops[0]) else fn.defs.get(strip_int_casts(fn, d.ops[1]))
+            if od is not None and od.op == 'or' and od.ty != 'i1' and ((pred == 'sge' and b == '0') or (pred == 'sgt' and b == '-1')):
+                for o in od.ops:
+                    self.facts.append(('sge', self.norm(o), '0'))
         elif d.op == 'xor' and 'true' in d.ops:          # !cond
             other = d.ops[0] if d.ops[1] == 'true' else d.ops[1]
             self._add(other, not truth)
@@ -237,10 +255,25 @@ def lower_bound_at(prog, fn, v, block, edge=None, depth=0):
             pb = fn.blocks[lab]
             l2 = lower_bound_at(prog, fn, val, pb, (pb, d.bb), depth + 1)
             if l2 is None:
-                return None
+                los = None
+                break
             los.append(l2)
-        return min(los) if los else None
-    return None
+        via_phi = min(los) if los else None
+    else:
+        via_phi = None
+    # a join: the bound holds when it holds on every way into the block (the same test duplicated on each arm, a threaded jump)
+    via_join = None
+    if edge is None and len(block.preds) > 1 and depth < 3 and not (d is not None and d.bb is block):
+        los = []
+        for pb in block.preds:
+            l2 = lower_bound_at(prog, fn, v, pb, (pb, block), depth + 1)
+            if l2 is None:
+                los = None
+                break
+            los.append(l2)
+        via_join = min(los) if los else None
+    both = [x for x in (via_phi, via_join) if x is not None]
+    return max(both) if both else None
 
 
 def upper_bound_at(prog, fn, v, block, edge=None, depth=0, live=None):
@@ -265,3 +298,72 @@ def upper_bound_at(prog, fn, v, block, edge=None, depth=0, live=None):
             his.append(h2)
         return max(his) if his else None
     return None
+
+
+class PolyFacts:
+    """the comparisons that hold at a block as linear facts over poly.py forms: every fact is a polynomial Q with Q >= 0
+    (integers, signed reading; an unsigned comparison is used only against a non-negative constant).  `implies(T)` decides
+    T >= 0 from one fact or the sum of two, so `i > n - 1`, `!(i < n)`, `i - k >= m` and `i >= k + m` are the same
+    statement; `(a | b) >= 0` yields a >= 0 and b >= 0 (sign bit)."""
+    def __init__(self, prog, fn, block, pc=None, extra_edge=None, extra=None):
+        from .poly import PolyCtx
+        self.fn = fn
+        self.pc = pc or PolyCtx(prog, fn)
+        self.ge = []
+        F = Facts(prog, fn, block, canon=self.pc.C, extra_edge=extra_edge)
+        for cond, truth in (extra or []):
+            F._add(cond, truth)
+        for raw, truth in F.raw:
+            if raw.op == 'icmp' and not (raw.ty or '').endswith('*'):
+                self.add(raw.pred if truth else NEG[raw.pred], raw.ops[0], raw.ops[1])
+
+    def add(self, pred, x, y):
+        from .poly import Poly
+        fn = self.fn
+        # sign test of a bitwise or: (x | y) >= 0  <=>  x >= 0 and y >= 0
+        for u, v in ((x, y), (y, x)):
+            d = fn.defs.get(strip_int_casts(fn, u))
+            if d is not None and d.op == 'or' and d.ty != 'i1' and INT.match(v):
+                c = int(v)
+                nonneg = (u is x and ((pred == 'sge' and c == 0) or (pred == 'sgt' and c == -1))) or \
+                         (u is y and ((pred == 'sle' and c == 0) or (pred == 'slt' and c == -1)))
+                if nonneg:
+                    for o in d.ops:
+                        self.add('sge', o, '0')
+                    return
+        a, b = self.pc.val(x), self.pc.val(y)
+        if pred in ('ult', 'ule', 'ugt', 'uge'):
+            # only against a non-negative constant: x <u C  =>  0 <= x < C
+            if INT.match(y) and int(y) >= 0 and pred in ('ult', 'ule'):
+                self.ge.append(a)
+                self.ge.append(b - a - Poly.const(1 if pred == 'ult' else 0))
+            elif INT.match(x) and int(x) >= 0 and pred in ('ugt', 'uge'):
+                self.ge.append(b)
+                self.ge.append(a - b - Poly.const(1 if pred == 'ugt' else 0))
+            return
+        q = {'slt': [b - a - Poly.const(1)], 'sle': [b - a], 'sgt': [a - b - Poly.const(1)], 'sge': [a - b], 'eq': [a - b, b - a]}.get(pred)
+        if q:
+            self.ge += q
+
+    def implies(self, T):
+        """T >= 0 follows from the facts (one fact, or two added up)"""
+        from .poly import Poly
+        if T.is_const():
+            return T.const_value() >= 0
+        for q in self.ge:
+            d = T - q
+            if d.is_const() and d.const_value() >= 0:
+                return True
+        for i, q1 in enumerate(self.ge):
+            for q2 in self.ge[i + 1:]:
+                d = T - q1 - q2
+                if d.is_const() and d.const_value() >= 0:
+                    return True
+        return False
+
+    def lt(self, a, b):
+        from .poly import Poly
+        return self.implies(b - a - Poly.const(1))
+
+    def ge0(self, a):
+        return self.implies(a)
